@@ -101,6 +101,22 @@ CHECKS["C04"] = dict(
     engine="tlc+translation-validation+ort",
 )
 
+CHECKS["C18"] = dict(
+    built=True,
+    category="model_checking",
+    technique="TLA+ spec J2O_Allclose (verdict procedure over abstract deviation cases) checked by TLC; every case instantiated as a hand-built stored model and judged by the real allclose",
+    text=(
+        "J2O_Allclose enumerates every way a stored model can deviate from fn in one or two outputs (count fewer/more; shape unit-axis / swapped dims / flattened; "
+        "element-class pair of fn and model; deviation none / within tolerance / beyond tolerance / fractional on an integer reference / NaN vs number / non-zero vs True) "
+        "and TLC checks that the procedure which compares in a common type is sound and complete, while the cast-to-reference variant (behaviour before the fix) is rejected. "
+        "All one-output cases and ~800 (quick) / all ~25k (thorough) two-output cases are built as real ONNX models and the REAL jax2onnx.allclose must return exactly "
+        "the verdict the property demands; layout-flag cases and the x64 flag before/after are checked too."
+    ),
+    note="Trusted: ORT on the hand-built models, TLC. NaN-vs-NaN is left unconstrained (the property does not speak about it). Tolerances fixed at rtol=1e-3, atol=1e-5 with deviations 1e-7 / 0.5 / 0.9.",
+    design_ref="DESIGN.md §2 J2O_Allclose, §3 C18",
+    engine="tlc+replay",
+)
+
 TITLES = {}
 for line in (VERIF / "properties.jsonl").read_text().splitlines():
     if line.strip():
